@@ -464,4 +464,54 @@ theorem ClusterMove.consistent {fr : SkOp → Bool} {b a : Config} (h : ClusterM
   have : sA' = a.state := xorB_cancel b.state sA' a.state hl h.stateLen hx
   rw [ha, this]
 
+/-! ### the tag rule keeps tags canonical -/
+
+theorem tagRule_canon : ∀ {sb sa : Slots}, PairAll (fun ob oa => tagRuleB ob oa = true) sb sa →
+    TagCanon sb → TagCanon sa
+  | [], [], _, _ => by intro o ho; simp [opsOf] at ho
+  | [], _ :: _, h', _ => by simp [PairAll] at h'
+  | none :: _, [], h', _ => by simp [PairAll] at h'
+  | some _ :: _, [], h', _ => by simp [PairAll] at h'
+  | none :: tb, none :: ta, h', hb => by
+    simp only [PairAll] at h'
+    have := tagRule_canon h' (fun o ho => hb o (by simpa [opsOf] using ho))
+    intro o ho; exact this o (by simpa [opsOf] using ho)
+  | none :: tb, some _ :: ta, h', _ => by simp [PairAll] at h'
+  | some _ :: tb, none :: ta, h', _ => by simp [PairAll] at h'
+  | some ob :: tb, some oa :: ta, h', hb => by
+    simp only [PairAll] at h'
+    have ih := tagRule_canon h'.2 (fun o ho => hb o (by simp [opsOf, ho]))
+    intro o ho
+    simp only [opsOf, List.mem_cons] at ho
+    rcases ho with rfl | ho
+    · have h1 := h'.1
+      have hbo := hb ob (by simp [opsOf])
+      simp only [tagRuleB] at h1
+      split at h1
+      · rename_i hu
+        simp only [Bool.and_eq_true, beq_iff_eq] at hu h1
+        rw [h1, hbo, hu.1, hu.2]
+      · simpa using h1
+    · exact ih o ho
+
+/-! ### the transverse-field Ising matrix elements satisfy the hypotheses of the weight theorem -/
+
+theorem twoSiteW_flip (J : Rat) (i o : List Bool) :
+    twoSiteW J (flipBits i) (flipBits o) = twoSiteW J i o := by
+  rcases i with _ | ⟨a, _ | ⟨b, _ | ⟨c, t⟩⟩⟩ <;> rcases o with _ | ⟨a', _ | ⟨b', _ | ⟨c', t'⟩⟩⟩ <;>
+    simp only [twoSiteW, flipBits, List.map_cons, List.map_nil]
+  cases a <;> cases b <;> cases a' <;> cases b' <;> rfl
+
+theorem isingClusterHam_flipSym (edges : List (List Nat × Rat)) (g h : Rat) (nvars b : Nat)
+    (hb : b < edges.length) : (isingClusterHam edges g h nvars).FlipSym b := by
+  intro i o
+  simp only [isingClusterHam, if_pos hb]
+  exact twoSiteW_flip _ i o
+
+theorem isingClusterHam_constW (edges : List (List Nat × Rat)) (g h : Rat) (nvars b : Nat)
+    (h1 : edges.length ≤ b) (h2 : b < edges.length + nvars) :
+    (isingClusterHam edges g h nvars).ConstW b := by
+  intro i o i' o' _ _
+  simp only [isingClusterHam, if_neg (Nat.not_lt.mpr h1), if_pos h2, transverseW]
+
 end Qmc
